@@ -298,6 +298,38 @@ class State:
             if g is not None and any(cur.get(s, 0) != g.get(s, 0) for s in f.t):
                 continue
             self.add_fact(f)
+        for ln, templates in d.ef.items():
+            self.attach_efacts(ln, templates)
+
+    def attach_efacts(self, ln, templates):
+        """Add element-fact templates to every sequence whose length symbol is `ln`."""
+        from .values import Seq as _Seq, Struct as _Struct, Enum as _Enum
+
+        changed = [False]
+
+        def walk(v, depth=0):
+            if isinstance(v, _Seq):
+                if v.len == ln:
+                    new = tuple(t for t in templates if t not in v.efacts)
+                    if new:
+                        changed[0] = True
+                        return _Seq(v.kind, v.len, v.elem, v.efacts + new, v.data, v.prov)
+                return v
+            if depth > 5:
+                return v
+            if isinstance(v, _Struct):
+                fs = [walk(f, depth + 1) for f in v.fields]
+                return v if all(a is b for a, b in zip(fs, v.fields)) else _Struct(v.path, fs)
+            if isinstance(v, _Enum):
+                nv = {k: tuple(walk(f, depth + 1) for f in fs) for k, fs in v.variants.items()}
+                return v if all(all(a is b for a, b in zip(nv[k], v.variants[k])) for k in nv) else _Enum(v.path, nv, v.when)
+            return v
+
+        for c, v in list(self.cells.items()):
+            nv = walk(v)
+            if nv is not v:
+                self.cells[c] = nv
+        return changed[0]
 
     # ----- relational assume ---------------------------------------------
     def assume_cmp(self, op, a, b, truth):
